@@ -28,7 +28,7 @@ type c04Op struct {
 	Kind string `json:"kind"`           // write | snap | load | boot | install | reap | restart
 	Keys []int  `json:"keys,omitempty"` // write: keys touched
 	Val  int    `json:"val,omitempty"`  // write: value (0 = delete)
-	Out  string `json:"out,omitempty"`  // snap: ok | notinvoked | failbefore | failafter
+	Out  string `json:"out,omitempty"`  // snap: ok | notinvoked | failbefore | failafter | blocked (checkpoint blocked by a reader)
 	Data []int  `json:"data,omitempty"` // load/boot/install: cells of the incoming database
 	Wal  bool   `json:"wal,omitempty"`  // load/boot: the incoming file is in WAL journal mode
 }
@@ -102,6 +102,20 @@ func (r *c04Run) step(op c04Op) (res int, err error) {
 		}
 	case "snap":
 		switch op.Out {
+		case "blocked":
+			release, err := vsStallReader(s)
+			if err != nil {
+				return 2, err
+			}
+			err = s.Snapshot(0)
+			release()
+			switch {
+			case err == nil:
+				return 4, fmt.Errorf("the reader did not block the checkpoint")
+			case err == ErrNoWALToSnapshot || err == ErrNothingNewToSnapshot || strings.Contains(err.Error(), ErrNoWALToSnapshot.Error()):
+				return 1, nil
+			}
+			return 7, nil
 		case "ok":
 			if err := s.Snapshot(0); err != nil {
 				if err == ErrNoWALToSnapshot || strings.Contains(err.Error(), ErrNoWALToSnapshot.Error()) {
@@ -289,7 +303,7 @@ func c04CoqOp(op c04Op) string {
 	case "write":
 		return fmt.Sprintf("(OWrite %s %s)", vsCoqNList(op.Keys), coqN(uint64(op.Val)))
 	case "snap":
-		return "(OSnap " + map[string]string{"ok": "POk", "notinvoked": "PNotInvoked", "failbefore": "PFailBefore", "failafter": "PFailAfter"}[op.Out] + ")"
+		return "(OSnap " + map[string]string{"ok": "POk", "notinvoked": "PNotInvoked", "failbefore": "PFailBefore", "failafter": "PFailAfter", "blocked": "PBlocked"}[op.Out] + ")"
 	case "load":
 		return "(OLoad " + vsCoqNList(op.Data) + ")"
 	case "boot":
@@ -464,9 +478,11 @@ func c04RandKeys(rng *rand.Rand) []int {
 func c04Gen(rng *rand.Rand, maxOps int) c04Input {
 	var ops []c04Op
 	val := 1
-	cur := make([]int, vsKeys) // the applied state, so that a delete always removes something
+	cur := make([]int, vsKeys)          // the applied state, so that a delete always removes something
+	fullDue, wroteSince := false, false // a load made a full snapshot due / a write followed it
 	w := func() c04Op {
 		val++
+		wroteSince = true
 		ks := c04RandKeys(rng)
 		if rng.Intn(8) == 0 {
 			var present []int
@@ -499,18 +515,31 @@ func c04Gen(rng *rand.Rand, maxOps int) c04Input {
 		case x < 7:
 			ops = append(ops, w())
 		case x < 13:
-			ops = append(ops, c04Op{Kind: "snap", Out: outs[rng.Intn(len(outs))]})
+			o := outs[rng.Intn(len(outs))]
+			if fullDue && wroteSince && rng.Intn(3) == 0 {
+				o = "blocked" // a reader blocks the full snapshot's checkpoint: fsmSnapshot itself fails
+			}
+			if o == "ok" {
+				fullDue = false
+			}
+			if o != "blocked" {
+				wroteSince = false // every other attempt checkpoints the WAL: a reader then has nothing to block
+			}
+			ops = append(ops, c04Op{Kind: "snap", Out: o})
 		case x < 15:
 			val += 10
 			copy(cur, c04RandCells(rng, val))
+			fullDue, wroteSince = true, false
 			ops = append(ops, c04Op{Kind: "load", Data: append([]int{}, cur...), Wal: rng.Intn(2) == 0})
 		case x < 16:
 			val += 10
 			copy(cur, c04RandCells(rng, val))
+			fullDue = false
 			ops = append(ops, c04Op{Kind: "boot", Data: append([]int{}, cur...), Wal: rng.Intn(2) == 0})
 		case x < 17:
 			val += 10
 			copy(cur, c04RandCells(rng, val))
+			fullDue = false
 			ops = append(ops, c04Op{Kind: "install", Data: append([]int{}, cur...)})
 		case x < 18:
 			ops = append(ops, c04Op{Kind: "reap"})
@@ -553,6 +582,14 @@ func c04Corpus() []c04Input {
 			ops := append(append(append([]c04Op{}, pre...), mid...), post...)
 			out = append(out, c04Input{Ops: ops})
 		}
+	}
+	// snapshot attempts that fail (each refreshes the in-memory "database file modified" time) between a load
+	// and the next successful snapshot: only the durable FULL_NEEDED flag still says that a full one is due
+	for _, failing := range [][]c04Op{{S("notinvoked")}, {S("blocked")}, {S("failbefore")}, {S("blocked"), S("notinvoked")}} {
+		ops := []c04Op{W(1, vsKeys, 1), S("ok"), {Kind: "load", Data: all(3), Wal: true}, W(1, 4, 5)}
+		ops = append(ops, failing...)
+		ops = append(ops, W(5, 6, 6), S("ok"), W(7, 7, 7), S("ok"), c04Op{Kind: "restart"})
+		out = append(out, c04Input{Ops: ops})
 	}
 	out = append(out,
 		c04Input{Ops: []c04Op{W(1, 3, 1), {Kind: "restart"}, W(2, 4, 2), S("ok"), W(1, 1, 3), {Kind: "restart"}, S("ok"), {Kind: "reap"}, {Kind: "restart"}}},
